@@ -106,7 +106,7 @@ def fit_compose(case, ctx):
     kw, B, cond = _setup(case, ctx)
     opd = np.einsum("i,ijk->jk", c, B)
     eps = np.finfo(float).eps
-    tol = cond * 256 * eps * float(np.max(np.abs(c))) * np.sqrt(len(c)) + 1e-300
+    tol = cond * 256 * eps * float(np.max(np.abs(c))) * np.sqrt(len(c)) * max(1.0, np.sqrt(mask.size) / 16) + 1e-300
     with lentil_call("C12.fit", "zernike_fit"):
         got = np.asarray(lentil.zernike_fit(opd, mask, modes, normalize=case["normalize"], **kw), dtype=float)
     if got.shape != c.shape or np.max(np.abs(got - c)) > tol:
@@ -221,7 +221,7 @@ def coords_history(case, ctx):
         if not cond < 1e6 or sv[-1] < 1e-6 * np.sqrt(A.shape[0]):
             raise Skip("ill_conditioned_mode_set")
         opd = np.einsum("i,ijk->jk", c, B)
-        tol = cond * 256 * eps * float(np.max(np.abs(c))) * np.sqrt(len(c)) + 1e-300
+        tol = cond * 256 * eps * float(np.max(np.abs(c))) * np.sqrt(len(c)) * max(1.0, np.sqrt(mask.size) / 16) + 1e-300
         with lentil_call("C12.history", f"zernike_fit (step {i}, {stp['coords']})"):
             got = np.asarray(lentil.zernike_fit(opd, mask, modes, normalize=case["normalize"], **kw), dtype=float)
         if got.shape != c.shape or np.max(np.abs(got - c)) > tol:
